@@ -184,6 +184,13 @@ class Parser:
             e = self.expr()
             self.expect(";")
             return [("let", name, e)]
+        # compound assignment  v op= e;  is  v = v op (e);
+        if tok[0] == "id" and any(self.is_op(o, 1) for o in ("+=", "-=", "*=", "/=")):
+            name = self.next()[1]
+            op = self.next()[1][0]
+            e = self.expr()
+            self.expect(";")
+            return [("let", name, ("bin", op, ("var", name), e))]
         raise TranslateError("%s: unsupported statement starting at %s" % (self.where, tok,))
 
     # ---- expressions (C precedence) ----
@@ -770,12 +777,23 @@ def translate_det(repo):
         j += 1
     ctor = body[k:match_brace(body, k)]
     out = {}
+    # local `const double v = e;` / `double v = e;` declarations of the constructor (a hoisted
+    # loop-invariant term, a named sub-expression) are inlined into the regions that use them
+    locals_ = dict(re.findall(r"\b(?:const\s+)?(?:double|int)\s+([A-Za-z_]\w*)\s*=\s*([^;{}]+);", ctor))
     for name, rx, ty in DET_REGIONS:
         where = "%s constructor, %s" % (header, name)
         ms = re.findall(rx, ctor)
         if len(ms) != 1:
             raise TranslateError("%s: expected exactly one assignment, found %d" % (where, len(ms)))
-        e = parse_expr(ms[0], where)
+        src = ms[0]
+        for _ in range(4):
+            used = [v for v in locals_ if re.search(r"\b%s\b" % re.escape(v), src) and v not in
+                    ("distance_to_center", "sum", "max_distance", "number_of_rows", "number_of_columns", "mid_row", "mid_col", "i", "j")]
+            if not used:
+                break
+            for v in used:
+                src = re.sub(r"\b%s\b" % re.escape(v), "(" + locals_[v].strip() + ")", src)
+        e = parse_expr(src, where)
         if name == "det_distance_sq":
             if not (e[0] == "call" and e[1] == "sqrt" and len(e[2]) == 1):
                 raise TranslateError("%s: distance is no longer sqrt(..)" % where)
